@@ -627,6 +627,9 @@ func ruleNestedReset(p *Program, r *Report, rule string, list []stateType) {
 			if typeString(ft) == "io.ReadCloser" {
 				isStdStateful = true // the inflater held by gzip/zlib readers
 			}
+			if isNamedType(ft, "bufio", "Reader") && n.Obj().Name() == "decompressor" {
+				isStdStateful = true // the inflater's private read-ahead buffer
+			}
 			if !isHash && nestedT == nil && !isStdStateful {
 				continue
 			}
@@ -643,7 +646,22 @@ func ruleNestedReset(p *Program, r *Report, rule string, list []stateType) {
 				switch x := in.(type) {
 				case *ssa.Store:
 					root, sel := accessPath(x.Addr)
-					return root == recv && sel == "."+f.Name() && p.isFresh(x.Val)
+					if root == recv && sel == "."+f.Name() {
+						if p.isFresh(x.Val) {
+							return true
+						}
+						// the caller's own object taken from a parameter (type assertion) replaces the old one
+						for _, leaf := range p.valueSources(x.Val) {
+							if ex, ok := leaf.(*ssa.Extract); ok {
+								if ta, ok := ex.Tuple.(*ssa.TypeAssert); ok {
+									if _, isPar := ta.X.(*ssa.Parameter); isPar {
+										return true
+									}
+								}
+							}
+						}
+					}
+					return false
 				case ssa.CallInstruction:
 					com := x.Common()
 					name := ""
